@@ -7,7 +7,7 @@ Import ListNotations.
 
 Section Sound.
   Variable beh : N -> N -> N -> outcome.
-  Variable e0 : N.
+  Variable e0 : N -> N.
   Variable want : option bool.
   Variable roots : list root.
   Variable c0 : bool.
@@ -49,7 +49,7 @@ Section Sound.
       destruct (negb (N.eqb (nobj n) obj)); [discriminate|]. destruct (negb (N.eqb (tev t) ein)); [discriminate|].
       apply ex_sound in H; tauto.
     - apply with_task_sound in H as [i [t [_ H]]]. destruct (outcome_eqb o (beh p k (tev t))); [|discriminate].
-      apply ex_sound in H; tauto.
+      destruct (tnodes t) as [|n rest]; [discriminate|]. apply ex_sound in H; [|exact Hr]. tauto.
     - apply with_task_sound in H as [i [t [_ H]]]. apply ex_sound in H; tauto.
     - apply with_task_sound in H as [i [t [_ H]]]. destruct (tstage t); try discriminate.
       destruct (ctx (a_st a)); [|discriminate]. apply ex_sound in H; tauto.
@@ -76,7 +76,7 @@ Section Sound.
   Qed.
 
   Theorem accepted_trace_is_execution tr a :
-    run_trace beh e0 want {| a_st := init roots c0; a_recv := 0; a_pend := false |} 0%N tr = (a, None) -> reach (a_st a).
+    run_trace beh e0 want {| a_st := init roots c0; a_recv := 0; a_pend := false; a_rets := [] |} 0%N tr = (a, None) -> reach (a_st a).
   Proof. intros H. eapply run_trace_sound; [exact H|]. cbn. constructor. Qed.
 
   Lemma is_terminal_spec s : is_terminal s = true -> terminal s.
@@ -85,7 +85,7 @@ Section Sound.
   (* consequently, for an accepted complete trace over well-formed roots everything proved about terminal reachable
      states holds of the observed run: no invocation is left, the wait group is balanced *)
   Corollary accepted_complete_no_goroutine tr a : roots_ok roots ->
-    run_trace beh e0 want {| a_st := init roots c0; a_recv := 0; a_pend := false |} 0%N tr = (a, None) ->
+    run_trace beh e0 want {| a_st := init roots c0; a_recv := 0; a_pend := false; a_rets := [] |} 0%N tr = (a, None) ->
     is_terminal (a_st a) = true ->
     wg (a_st a) = 0 /\ forall t, In t (tasks (a_st a)) -> exists f, tstage t = SDone f.
   Proof.
